@@ -32,7 +32,7 @@ REQUIRED_THEOREMS = [
     "sphTensorDoubleDivergence_plain_poly", "sphTensorDoubleDivergence_conservative_poly",
     "sphVectorGradient_components", "cart_operators_are_building_blocks",
     "polarLaplace_remainder_bound", "sphLaplace_conservative_remainder_bound",
-    "cart_d2_taylor", "cart_d1_taylor", "d2_fun_taylor", "d1_central_fun_taylor",
+    "cart_d2_taylor", "cart_d1_taylor", "d2_fun_taylor", "d1_central_fun_taylor", "polar_laplace_taylor", "sph_laplace_plain_taylor",
 ]
 EXTRA_PROP_FILES = ["C01Taylor"]
 RULE = ("matrix leg: seed-derived grids of the four stencil families (Cartesian 1-3 axes incl. UnitGrid, polar, "
